@@ -247,6 +247,25 @@ def run_pair(res, rng, tier, null_name, alt_name):
         res.refused += 1  # documented assertion "wrong order": nesting needs more free parameters in alt
         res.count("refused:alt-has-no-more-free-params")
         return
+    # the richer function may have been used before (own starting values, a few optimiser steps): whatever it holds,
+    # initialising it from the nested fit must give the nested likelihood
+    used = None
+    if not same_model and alt_name in M.NUC_REV + M.NUC_NS + M.CODON and rng.random() < 0.45:
+        try:
+            if rng.random() < 0.7:
+                used = "own-starting-values"
+                for p_ in M.rate_param_names(alt_name):
+                    alt.set_param_rule(p_, init=round(math.exp(rng.uniform(math.log(0.2), math.log(6.0))), 4))
+                for e_ in M.edges(tree):
+                    alt.set_param_rule("length", edge=e_["name"], init=round(rng.uniform(0.01, 1.0), 4))
+            else:
+                used = "optimised-before"
+                alt.optimise(local=True, max_evaluations=rng.choice([5, 30]), limit_action="ignore", show_progress=False)
+            detail["alt_state"] = used
+        except Exception as e:  # noqa: BLE001
+            res.evals += 1
+            res.witness(exc_mechanism(f"C16/{label}/prepare-alt", e), **detail)
+            return
     try:
         alt.initialise_from_nested(null)
         alt_lnL = float(alt.lnL)
@@ -256,10 +275,12 @@ def run_pair(res, rng, tier, null_name, alt_name):
         return
     res.evals += 1
     res.count("nested-init-checked")
+    if used:
+        res.count("nested-init:alt-" + used)
     if "null_constant" in detail:
         res.count("nested-init:null-with-constant-rate-param")
     if not close(alt_lnL, null_lnL, 1e-8):
-        res.witness(f"C16/nested-init/lnL-differs/{label}" + ("/null-has-constant-param" if "null_constant" in detail else ""), null_lnL=null_lnL, alt_lnL=alt_lnL, **detail)
+        res.witness(f"C16/nested-init/lnL-differs/{label}" + ("/null-has-constant-param" if "null_constant" in detail else "") + ("/alt-used-before" if used else ""), null_lnL=null_lnL, alt_lnL=alt_lnL, **detail)
         return
     final = optimise_and_decide(res, alt, rng, tier, "alt-fit", detail, sig_base)
     if final is not None:
@@ -334,14 +355,26 @@ def run_app(res, rng, tier):
     """the documented app route: hypothesis(null, alt) -> LR >= 0, alt initialised from null"""
     from cogent3 import get_app, make_aligned_seqs
 
-    null_name, alt_name = rng.choice([("F81", "HKY85"), ("HKY85", "GTR"), ("HKY85", "TN93"), ("GTR", "GN")])
+    null_name, alt_name = rng.choice([("F81", "HKY85"), ("HKY85", "GTR"), ("HKY85", "TN93"), ("GTR", "GN"), ("HKY85", "HKY85"), ("GTR", "GTR"), ("TN93", "TN93")])
     tree, aln = make_data(rng, null_name, rng.randint(3, 5), rng.randint(60, 200))
     detail = {"null": null_name, "alt": alt_name, "tree": M.newick(tree), "aln": aln}
     try:
         opt = dict(max_evaluations=rng.choice([25, 100, 400]), limit_action="ignore")
         tr = M.newick(tree, with_lengths=False)
-        null = get_app("model", null_name, tree=tr, opt_args=opt, show_progress=False)
-        alt = get_app("model", alt_name, tree=tr, opt_args=opt, show_progress=False)
+        altkw = {}
+        alt_opt = opt
+        if null_name == alt_name:
+            # nested by scoping only: the alternate frees the rate terms per branch ("max") or on a set of edges
+            tipn = M.tips(tree)
+            altkw["time_het"] = "max" if rng.random() < 0.5 else [dict(edges=rng.sample(tipn, 2), is_independent=rng.choice([False, True]))]
+            alt_opt = dict(max_evaluations=rng.choice([5, 10, 40]), limit_action="ignore")
+            opt = dict(max_evaluations=300, limit_action="ignore")
+            detail["time_het"] = altkw["time_het"]
+            alt_name_label = alt_name + "+time_het"
+        else:
+            alt_name_label = alt_name
+        null = get_app("model", null_name, tree=tr, opt_args=opt, show_progress=False, name="null")
+        alt = get_app("model", alt_name, tree=tr, opt_args=alt_opt, show_progress=False, name="alt", **altkw)
         hyp = get_app("hypothesis", null, alt)
         data = make_aligned_seqs(aln, moltype="dna")
         data.info.source = "harness"
@@ -386,8 +419,31 @@ def run_app(res, rng, tier):
             res.refused += 1
             res.count("app:null-point-outside-alt-bounds(not nested as configured)")
         else:
-            res.witness(f"C16/app/negative-LR/{null_name}<{alt_name}", LR=LR, null_lnL=lnL0, alt_lnL=lnL1, **detail)
-    res.sig("app", null_name, alt_name, opt["max_evaluations"])
+            res.witness(f"C16/app/negative-LR/{null_name}<{alt_name_label}", LR=LR, null_lnL=lnL0, alt_lnL=lnL1, **detail)
+    if "time_het" in detail:
+        res.count("app:alt-nested-by-time-het")
+    res.sig("app", null_name, alt_name_label, alt_opt["max_evaluations"])
+    # the result's statistics describe the functions it holds, also after those were continued in place
+    try:
+        alt_res = result.alt if hasattr(result.alt, "lf") else list(result.alt)[0]
+        for mr, nm in ((result.null, "null"), (alt_res, "alt")):
+            _ = float(mr.lnL)
+            mr.lf.optimise(local=True, max_evaluations=rng.choice([3, 20]), limit_action="ignore", show_progress=False)
+        stats = {"null": (float(result.null.lnL), float(result.null.lf.lnL), result.null.nfp, result.null.lf.nfp), "alt": (float(alt_res.lnL), float(alt_res.lf.lnL), alt_res.nfp, alt_res.lf.nfp)}
+        LR2 = float(result.LR)
+    except Exception as e:  # noqa: BLE001
+        res.evals += 1
+        res.witness(exc_mechanism("C16/app/continue-in-place", e), error=repr(e)[:300], **detail)
+        return
+    res.evals += 1
+    res.count("app:statistics-after-continuation-checked")
+    for nm, (a_, b_, n_, m_) in stats.items():
+        if not close(a_, b_, 1e-10) or n_ != m_:
+            res.witness(f"C16/app/result-statistics-stale-after-continuing-the-fit/{nm}", reported_lnL=a_, function_lnL=b_, reported_nfp=n_, function_nfp=m_, **detail)
+            return
+    exp_LR = 2 * (stats["alt"][1] - stats["null"][1])
+    if abs(LR2 - exp_LR) > 1e-8 * max(1.0, abs(exp_LR)):
+        res.witness("C16/app/LR-is-not-twice-the-lnL-difference-of-the-held-functions", LR=LR2, expected=exp_LR, **detail)
 
 
 def run_bound(res, rng, tier):
@@ -433,7 +489,7 @@ def run_case(case):
 
 
 def required(counters, tier):
-    need = ["start-on-upper-bound:ended-on-bound", "nested-init-checked", "nested-init:null-with-constant-rate-param", "nested-by-scope", "trace-checked", "trace:optimiser-last-not-best", "optimiser:local", "bounds-checked", "LR-checked", "app-hypothesis-runs", "budget:1", "budget:200"]
+    need = ["start-on-upper-bound:ended-on-bound", "nested-init-checked", "nested-init:null-with-constant-rate-param", "nested-by-scope", "trace-checked", "trace:optimiser-last-not-best", "optimiser:local", "bounds-checked", "LR-checked", "app-hypothesis-runs", "app:statistics-after-continuation-checked", "nested-init:alt-own-starting-values", "budget:1", "budget:200"]
     if not (counters.get("optimiser:global") or counters.get("optimiser:global+local")):
         need.append("optimiser:global")
     return [n for n in need if not counters.get(n)]
